@@ -20,6 +20,7 @@ def consistency(timeout_ms=20000):
     t = L.app(L.app(L.sempty, a), b)
     P = z3.Const("P", L.SetS)
     s.add(L.mem(L.srem(t, a), b), L.nodup(L.srem(L.cat(t, t), c_)) == L.nodup(L.srem(L.cat(t, t), a)), L.slen(L.srem(L.srem(t, b), a)) == 0)
+    s.add(L.chain_in(P, t), L.chain_in(P, L.cat(t, t)) == z3.Select(P, c_))
     s.add(L.slen(L.cat(t, t)) == 4, L.mem(L.filt(P, t), a) == z3.And(z3.Select(P, a)), L.nodup(L.addall(L.sempty, L.cat(t, t))))
     r = s.check()
     return str(r)
